@@ -137,28 +137,28 @@ Section Search.
         bo_add Op (bo_mul Op a (bo_div Op d (bo_add Op one (bo_abs Op d)))) (bo_mul Op e d)
     end.
 
-  (* a triangular map: row i = (g_i, [c_i0 .. c_i,i-1], target_i);
-     F(x)_i = (g_i(x_i) + sum_{j<i} c_ij x_j) - target_i        (bijection.transform(x) - y) *)
+  (* a triangular conditional map: row i = (g_i, [c_i0 .. c_i,i-1], cond_i, target_i);
+     F(x)_i = ((g_i(x_i) + sum_{j<i} c_ij x_j) + cond_i) - target_i        (bijection.transform(x, condition) - y) *)
   Fixpoint cpl (cs xs : list A) (acc : A) : A :=
     match cs, xs with
     | c :: cs', x :: xs' => cpl cs' xs' (bo_add Op acc (bo_mul Op c x))
     | _, _ => acc
     end.
 
-  Definition tri_row (x : list A) (i : nat) (row : fn * list A * A) : A :=
-    let '(g, cs, t) := row in
-    bo_sub Op (bo_add Op (eval_fn g (nth i x zero)) (cpl cs x zero)) t.
+  Definition tri_row (x : list A) (i : nat) (row : fn * list A * A * A) : A :=
+    let '(g, cs, cnd, t) := row in
+    bo_sub Op (bo_add Op (bo_add Op (eval_fn g (nth i x zero)) (cpl cs x zero)) cnd) t.
 
-  Fixpoint tri_rows (x : list A) (i : nat) (rows : list (fn * list A * A)) : list A :=
+  Fixpoint tri_rows (x : list A) (i : nat) (rows : list (fn * list A * A * A)) : list A :=
     match rows with
     | [] => []
     | row :: t => tri_row x i row :: tri_rows x (S i) t
     end.
 
-  Definition tri_eval (rows : list (fn * list A * A)) (x : list A) : list A := tri_rows x O rows.
+  Definition tri_eval (rows : list (fn * list A * A * A)) (x : list A) : list A := tri_rows x O rows.
 
   Definition search_fn (g : fn) (lo up tol : A) (max_iter fuel : nat) := search (eval_fn g) lo up tol max_iter fuel.
-  Definition autoreg_tri (rows : list (fn * list A * A)) (lo up tol : A) (max_iter fuel : nat) :=
+  Definition autoreg_tri (rows : list (fn * list A * A * A)) (lo up tol : A) (max_iter fuel : nat) :=
     autoreg (tri_eval rows) lo up tol (length rows) max_iter fuel.
 End Search.
 
